@@ -69,6 +69,15 @@ def xcheck(c, mod, rep, prop):
         return None
     from . import native
     tier = os.environ.get("VERIF_TIER_EFFECTIVE", "quick")
+    if c.scenarios is not None:
+        clauses = {k: v for k, v in c.post.items() if prop in c.props_of(k)}
+        try:
+            wit, n, errs = native.run_method_scenarios(c, mod, clauses, stop_after=2)
+        except Exception:  # noqa: BLE001
+            return {"error": traceback.format_exc()[-600:]}
+        failed_clauses = {o.clause for o in rep.obls if o.status != "discharged"}
+        bad = [] if failed_clauses else wit
+        return {"scenarios": n, "disagreements": bad[:5], "eval_errors": errs[:5], "n_eval_errors": len(errs)}
     dparams = [n for n, k in c.params.items() if k == "D"]
     if dparams != ["data"] or len(c.params) != 1:
         return None
@@ -105,6 +114,14 @@ def triage(c, mod, rep, o):
         others = [n for n, k in c.params.items() if k != "D"]
         if getattr(c, "replayer", None) is not None:
             f["witnesses"] = c.replayer(c, mod, rep, o)
+        elif c.scenarios is not None:
+            from . import native
+            clauses = {o.clause: c.post[o.clause]} if o.clause in c.post else dict(c.post)
+            wit, n, errs = native.run_method_scenarios(c, mod, clauses)
+            f["witnesses"] = wit
+            f["replay_kind"] = f"native method scenarios ({n})"
+            f["replay_eval_errors"] = errs[:3]
+            f["unconfirmed_is_undecided"] = True
         elif c.via is not None and dparams == ["data"] and not others:
             from . import native
             if o.kind in ("post", "frame") and o.clause in c.post:
